@@ -131,5 +131,8 @@ fixed('F24', 'C16', '366875c', "SchedulingSolver(optimizer='optimize').export_to
 fixed('F39', 'C08', 'c9f7563', 'IndicatorEarliness counted due - (-k) for an unscheduled optional task')
 fixed('F40', 'C11', 'c7ed2c8', 'an unscheduled optional task with delay_in >= its task number was reported with the worker among its assigned resources')
 fixed('F37', 'C15', '30e65c9', "optimizer='optimize' with optimize_priority='weight' built the equivalent weighted objective but never called minimize/maximize: a non-optimal schedule was returned (weighted sum 56 where 14 is optimal)")
+fixed('F08', 'C04', 'fd37add', 'ResourcePeriodicallyUnavailable(W, [(2,4)], period=5): a 6-long task at 4 was admitted although it covers [7,9) (only the folded start was compared with the interval)')
+fixed('F36', 'C04', '203b612', 'ResourcePeriodicallyInterrupted(W, [(2,4)], period=5): a 4-long fixed-duration task at 4 was admitted although it covers [7,8)')
+fixed('F42', 'C04', 'f15b4a5', 'ResourcePeriodicallyInterrupted(W, [(1,3)], period=5, start=10): a task pinned at 0 (last busy interval of the worker) switched the constraint off for another task at [11,13)')
 json.dump({'findings': F}, open('/verif/known_findings.json', 'w'), indent=1)
 print(len(F), 'findings written')
